@@ -23,7 +23,9 @@ fn canon(t: &StructureTag) -> StructureTag {
 }
 
 /// Blocking scripted server on one end of a socket pair. behaviour: ok | rc<N> | close<k> (close after k requests) | silent
-fn server(mut sock: UnixStream, behaviour: String, log: Arc<Mutex<Vec<String>>>) {
+fn server(mut sock: UnixStream, behaviour: String, log: Arc<Mutex<Vec<String>>>, gone: Arc<std::sync::atomic::AtomicBool>) {
+    struct Flag(Arc<std::sync::atomic::AtomicBool>); impl Drop for Flag { fn drop(&mut self) { self.0.store(true, std::sync::atomic::Ordering::SeqCst); } }
+    let _flag = Flag(gone);
     let _ = sock.set_read_timeout(Some(Duration::from_millis(1500)));
     let mut inbuf: Vec<u8> = vec![]; let mut buf = vec![0u8; 65536]; let mut count = 0usize;
     loop {
@@ -64,7 +66,16 @@ fn scope_of(sc: i64) -> Scope { match sc { 0 => Scope::Base, 1 => Scope::OneLeve
 fn mods_of(ms: &[(i64, Vec<u8>, Vec<Vec<u8>>)]) -> Vec<Mod<Vec<u8>>> { ms.iter().map(|(k, a, vs)| { let set: HashSet<Vec<u8>> = vs.iter().cloned().collect(); match k { 0 => Mod::Add(a.clone(), set), 1 => Mod::Delete(a.clone(), set), 2 => Mod::Replace(a.clone(), set), _ => Mod::Increment(a.clone(), vs.first().cloned().unwrap_or_default()) } }).collect() }
 fn entries(v: &[ldap3::ResultEntry]) -> String { v.iter().map(|e| ldap3::SearchEntry::construct(ldap3::ResultEntry::new(e.0.clone())).dn).collect::<Vec<_>>().join("+") }
 
-fn run_sync_side(sock: UnixStream, calls: &[(Mods, Op, bool)]) -> Vec<String> {
+/// Against a server that drops the connection after k requests, WHEN the driver notices is a race inside either API (the driver's
+/// select! picks at random between the closed socket and the request queue; the blocking facade polls its driver only inside a call):
+/// which of OpSend / ResultRecv / Io a later operation fails with, whether an operation that does not wait for the server (Abandon,
+/// Unbind) still succeeds, and is_closed() are therefore not compared in that behaviour - that every later operation FAILS is.
+fn canon_lost(r: String, op: &Op, closing: bool) -> String {
+    if !closing { return r; }
+    if matches!(op, Op::Abandon(_) | Op::Unbind) { return "-".to_string(); }
+    r.replace("err:opsend", "err:lost").replace("err:resultrecv", "err:lost").replace("err:io", "err:lost")
+}
+fn run_sync_side(sock: UnixStream, calls: &[(Mods, Op, bool)], closing: bool, gone: Arc<std::sync::atomic::AtomicBool>) -> Vec<String> {
     let st = LdapConnSettings::new().set_std_stream(StdStream::Unix(sock));
     let mut conn = match LdapConn::with_settings(st, "ldapi:///") { Ok(c) => c, Err(e) => return vec![format!("connect-err:{}", err_class(&e))] };
     let mut out = vec![];
@@ -90,12 +101,19 @@ fn run_sync_side(sock: UnixStream, calls: &[(Mods, Op, bool)]) -> Vec<String> {
             Op::Abandon(i) => conn.abandon(*i as i32).map(|_| "ok".to_string()).unwrap_or_else(e),
             Op::Unbind => conn.unbind().map(|_| "ok".to_string()).unwrap_or_else(e),
         };
-        out.push(format!("{} lastid={} closed={}", r, conn.last_id(), conn.is_closed()));
+        // Abandon does not wait for the server: whether the driver has already noticed a closed connection when it returns is a race on
+        // both sides, so is_closed() is not compared after it
+        // a server that closes the connection after k requests races with the client; both sides are brought to the same point before
+        // the next call: once the server is gone, wait until the driver has noticed
+        let _ = &gone;
+        let r = canon_lost(r, op, closing);
+        let closed = if matches!(op, Op::Abandon(_)) || closing { "-".to_string() } else { conn.is_closed().to_string() };
+        out.push(format!("{} lastid={} closed={}", r, conn.last_id(), closed));
     }
     out
 }
 
-async fn run_async_side(sock: UnixStream, calls: &[(Mods, Op, bool)]) -> Vec<String> {
+async fn run_async_side(sock: UnixStream, calls: &[(Mods, Op, bool)], closing: bool, gone: Arc<std::sync::atomic::AtomicBool>) -> Vec<String> {
     let st = LdapConnSettings::new().set_std_stream(StdStream::Unix(sock));
     let (conn, mut ldap) = match LdapConnAsync::with_settings(st, "ldapi:///").await { Ok(c) => c, Err(e) => return vec![format!("connect-err:{}", err_class(&e))] };
     tokio::spawn(async move { let _ = conn.drive().await; });
@@ -124,7 +142,10 @@ async fn run_async_side(sock: UnixStream, calls: &[(Mods, Op, bool)]) -> Vec<Str
         };
         // let the driver settle so that is_closed() reflects the same instant as on the blocking side
         for _ in 0..5 { tokio::task::yield_now().await; }
-        out.push(format!("{} lastid={} closed={}", r, ldap.last_id(), ldap.is_closed()));
+        let _ = &gone;
+        let r = canon_lost(r, op, closing);
+        let closed = if matches!(op, Op::Abandon(_)) || closing { "-".to_string() } else { ldap.is_closed().to_string() };
+        out.push(format!("{} lastid={} closed={}", r, ldap.last_id(), closed));
     }
     out
 }
@@ -151,12 +172,14 @@ pub fn run(args: &[&str]) -> (String, Option<String>) {
     let run_one = |sync_side: bool| -> Option<(Vec<String>, Vec<String>)> {
         let (a, b) = UnixStream::pair().ok()?;
         let log = Arc::new(Mutex::new(vec![])); let l2 = log.clone(); let bh = behaviour.clone();
-        let th = std::thread::spawn(move || server(b, bh, l2));
+        let gone = Arc::new(std::sync::atomic::AtomicBool::new(false)); let g2 = gone.clone();
+        let closing = behaviour.starts_with("close");
+        let th = std::thread::spawn(move || server(b, bh, l2, g2));
         let calls2 = calls.clone();
         let res = std::panic::catch_unwind(std::panic::AssertUnwindSafe(move || {
-            if sync_side { run_sync_side(a, &calls2) } else {
+            if sync_side { run_sync_side(a, &calls2, closing, gone) } else {
                 let rt = tokio::runtime::Builder::new_current_thread().enable_all().build().expect("rt");
-                let r = rt.block_on(run_async_side(a, &calls2)); drop(rt); r }
+                let r = rt.block_on(run_async_side(a, &calls2, closing, gone)); drop(rt); r }
         })).unwrap_or_else(|_| vec!["panic".into()]);
         let _ = th.join();
         let w = log.lock().unwrap().clone();
